@@ -872,7 +872,12 @@ func (r *envelopingReader) Read(data []byte) (n int, err error) {
 		if bytesRead > 0 && (err == nil || isEOF) {
 			return bytesRead, nil
 		}
-		if err != nil && !isEOF {
+		if err == nil {
+			// A read of nothing without an error (which io.Reader permits)
+			// is not the end of the message.
+			return 0, nil
+		}
+		if !isEOF {
 			r.err = err
 			return bytesRead, err
 		}
